@@ -82,6 +82,11 @@ inductive Op
   | instSet (i : IId) (n : Name) (v : Int)
   /-- `obj.param[n]` -/
   | instParam (i : IId) (n : Name)
+  /-- `with edit_constant(obj): pass` — a reader of the class namespace (`objects(instance=False)`)
+  that must not write to it -/
+  | instBlock (i : IId)
+  /-- `setattr(C, n, P(default=d[, bound hi]))`: class-level assignment of a *Parameter object* -/
+  | clsSetParam (c : CId) (n : Name) (d : Int) (hi : Option Int)
   deriving Repr, DecidableEq
 
 /-! ### Attribute lookup -/
@@ -248,6 +253,23 @@ def step (s : St) : Op → St × Res
             if q.accepts v then (setInst s1 i { x1 with values := aset x1.values n v }, .ok)
             else (s1, .valueError)
           | _, _ => (s1, .stuck)
+  | .instBlock i =>
+    -- src: edit_constant: `kls_params = parameterized.param.objects(instance=False)`; the flags it
+    -- flips and restores are not part of this model
+    match s.insts[i]? with
+    | none => (s, .stuck)
+    | some x => ((nsRead s x.cls).1, .ok)
+  | .clsSetParam c n d hi =>
+    -- src: ParameterizedMetaclass.__setattr__, `else` branch: `type.__setattr__` then
+    -- `__param_inheritance` — no `_set_names`, and NO cache is cleared.  Because the Parameter is
+    -- still unnamed, `Parameter.__getattribute__` answers every `Undefined` slot with the slot default,
+    -- so nothing is inherited (its bound stays its own) and the re-validation cannot fail.  (Being
+    -- unnamed also breaks it at instance level: outside the model.)
+    match s.classes[c]? with
+    | none => (s, .stuck)
+    | some _ =>
+      if !({ default := d, hi := hi } : Param).accepts d then (s, .valueError) else
+      (setDict { s with heap := s.heap ++ [{ default := d, hi := hi }] } c n s.heap.length, .ok)
   | .instParam i n =>
     -- src: Parameters.__getitem__: `p = self_.objects(instance=False)[key]`; `_instantiated_parameter(inst, p)`
     match s.insts[i]? with
@@ -260,6 +282,11 @@ def step (s : St) : Op → St × Res
         match instantiated s1 i x n p with
         | .error e => (s1, e)
         | .ok (s2, _) => (s2, .ok)
+
+/-- is the operation a Parameter-valued class assignment (the path that skips the caches) -/
+def Op.assignsParam : Op → Bool
+  | .clsSetParam .. => true
+  | _ => false
 
 def run (s : St) (ops : List Op) : St := ops.foldl (fun s op => (step s op).1) s
 
